@@ -108,17 +108,25 @@ def attachAll (sh : List (Nat × Nat)) (cache : List (Nat × GV × Ty)) (base : 
 
 def relocFuel : Nat := 64
 
+/-- result of a conversion that started from a fresh top object -/
+structure Fresh where
+  o : Nat            -- the top object, in the conversion's own heap
+  heap : List GV     -- the conversion's own heap: everything the new struct can reach
+  top : Nat          -- the same object in the persistent heap
+  st : HSt
+
 /-- a conversion that starts from a fresh top object: `toGoTop` in a heap of its own, appended to
-the persistent heap. Returns the top object's id. `attachTop`: `toGoHelper` attaches the top
-object to the record, an argument conversion does not. -/
-def convertFresh (w : World) (fuel : Nat) (h : HSt) (want : Option String) (x : Sx) (attachTop : Bool) : M (Nat × HSt) :=
+the persistent heap. `attachTop`: `toGoHelper` attaches the top object to the record, an argument
+conversion does not. -/
+def convertFresh (w : World) (fuel : Nat) (h : HSt) (want : Option String) (x : Sx) (attachTop : Bool) : M Fresh :=
   match toGoTop w fuel want x with
   | .error e => .error e
   | .ok (o, st) =>
     let base := h.heap.length
     let topId : Option Nat := match x with | .hash id _ _ => some id | _ => none
-    .ok (o + base, { h with heap := h.heap ++ st.heap.map (reloc base relocFuel),
-                            shadow := attachAll h.shadow st.cache base (if attachTop then none else topId) })
+    .ok ⟨o, st.heap, o + base,
+         { h with heap := h.heap ++ st.heap.map (reloc base relocFuel),
+                  shadow := attachAll h.shadow st.cache base (if attachTop then none else topId) }⟩
 
 /-- `toGoHelper` on a record that already has its Go struct attached (object `o`): the struct is
 filled again, starting from what it holds. -/
@@ -171,16 +179,21 @@ def stepTogo (w : World) (fuel : Nat) (h : HSt) (r : Nat) : Ans × HSt :=
     | .error e => (ansOfErr e, h)
   | none =>
     match convertFresh w fuel h none x true with
-    | .ok (o, h1) => (.go h1.heap o, h1)
+    | .ok f => (.go f.heap f.o, f.st)
     | .error e => (ansOfErr e, h)
 
-/-- `(_method o M: r)` with `M` returning its (possibly mutated) argument -/
+/-- what the method hands back: its argument, after `Touch` did its work on it -/
+def handedBack (mutate : Bool) (heap : List GV) (o : Nat) : List GV :=
+  if mutate then heap.set o (touch relocFuel (heap.getD o .bad)) else heap
+
+/-- `(_method o M: r)` with `M` returning its (possibly mutated) argument. The struct that comes
+back is read from the conversion's own heap: the argument is a brand-new object graph. -/
 def stepArg (w : World) (fuel : Nat) (h : HSt) (r : Nat) (mutate : Bool) : Ans × HSt :=
   let x := h.record r
   match convertFresh w fuel h (wantOf w x) x false with
-  | .ok (o, h1) =>
-    let h2 : HSt := if mutate then { h1 with heap := h1.heap.set o (touch relocFuel (h1.heap.getD o .bad)) } else h1
-    (.sx (back w h2.heap fuel (.ptr (some o))), h2)
+  | .ok f =>
+    (.sx (back w (handedBack mutate f.heap f.o) fuel (.ptr (some f.o))),
+     { f.st with heap := handedBack mutate f.st.heap f.top })
   | .error e => (ansOfErr e, h)
 
 /-- `(_method r Self:)` -/
@@ -189,7 +202,7 @@ def stepSelf (w : World) (fuel : Nat) (h : HSt) (r : Nat) : Ans × HSt :=
   | some o => (.sx (back w h.heap fuel (.ptr (some o))), h)
   | none =>
     match convertFresh w fuel h none (h.record r) true with
-    | .ok (o, h1) => (.sx (back w h1.heap fuel (.ptr (some o))), h1)
+    | .ok f => (.sx (back w f.heap fuel (.ptr (some f.o))), f.st)
     | .error e => (ansOfErr e, h)
 
 def step (w : World) (fuel : Nat) (h : HSt) : Step → Ans × HSt
